@@ -16,7 +16,7 @@ PROPS = {
         level_note='Trusted: Verus+Z3; the permutation is uninterpreted in (ii)/(iii); gl_core contracts (C14) for from_noncanonical_u96 and +. NOT proved: the '
                    'identity between the fast partial rounds (FAST_PARTIAL_* matrices) and the textbook rounds (a computer-algebra identity on 12x12 matrices, '
                    'assumption A-C13-1), the full/partial round drivers and mds_partial_layer_init (poseidon.rs) -- listed as remainder. Keccak delegates to an external crate; the bounded harness checks that the Keccak permutation, hash and challenger see field elements, not '
-                   'their u64 representations (x vs x + p).',
+                   'their u64 representations (x vs x + p), and that hash_pad is hash_no_pad of the pad10*1 padding for every length 0..40 and keeps m, m||1, m||0, m||1||0 apart.',
         remainder=['poseidon.rs: mds_partial_layer_init, partial_first_constant_layer, partial_rounds, full_rounds, poseidon drivers (bounded harness only: poseidon == poseidon_naive; linear layers vs a u128 oracle on magnitude classes and states steered to the carry boundaries of the 160-bit accumulator, incl. sums K*2^128 + delta with delta < 100)',
                    'A-C13-1: FAST_PARTIAL_* constants are the sparse factorisation of the MDS matrix', 'Keccak (external crate)', 'AVX2/NEON Poseidon (not compiled here)'],
     ),
@@ -57,7 +57,7 @@ PROPS = {
                    '(BaseSum, Exponentiation, RandomAccess, Reducing*, MulExtension, ArithmeticExtension, Poseidon*, CosetInterpolation, Lookup*) and '
                    'compute_filter / compute_filter_circuit (iterator products): bounded harness only (c07_gates: 23 gate instances incl. odd bases 3/5/7 x {standard, 37-routed-wire} configuration: extension vs '
                    'base-batch vs in-circuit evaluators incl. filtered with 1 and 2 selectors, declared constraint count, and for every wire a generator writes: the '
-                   'generated row satisfies the gate and the wire cannot be changed by +1, -1, 12345 without violating a constraint; c07_gate_ids_and_circuit_evaluation: gate ids distinguish every parameterisation, and whole circuits with lookup tables evaluate identically natively and in-circuit; thorough tier: the same battery in an AVX2 build, where the base-batch evaluators run 4 lanes wide).',
+                   'generated row satisfies the gate (also when the inputs are held in non-canonical representation) and the wire cannot be changed by +1, -1, 12345 without violating a constraint; c07_gate_ids_and_circuit_evaluation: gate ids distinguish every parameterisation, and whole circuits with lookup tables evaluate identically natively and in-circuit; thorough tier: the same battery in an AVX2 build, where the base-batch evaluators run 4 lanes wide).',
         remainder=['all gates other than ArithmeticGate, ConstantGate and ExponentiationGate (bounded harness only)', 'generators run_once (closures over the witness)', 'compute_filter / compute_filter_circuit (assumed to denote the same function)'],
     ),
     'C09': dict(
@@ -109,7 +109,9 @@ PROPS = {
                    'height, all indices into the interleaved digest buffer are in range, one sibling per layer is returned, and sibling i is the OTHER element of the '
                    'pair above the leaf in layer i, taken from the sub-tree of the cap entry of that leaf.',
         level_note='Trusted: Verus+Z3; hasher functions uninterpreted (binding itself is the collision-resistance argument, outside the family); '
-                   'Vec/slice std specs. Not covered: MerkleTree::new / fill_subtree (MaybeUninit + rayon), batch trees, thread schedules.',
+                   'Vec/slice std specs. MerkleTree::new / fill_subtree / fill_digests_buf (MaybeUninit + rayon), batch trees and path compression: bounded harness only: every leaf count 1..32, widths 1..9, cap heights, '
+                   'four leaf styles, both hashers, every position / sibling / cap entry altered, every leaf element altered in every byte position, cap == level-by-level hashing; the same tests are run under rayon pools of 1, 3 and 5 threads '
+                   '(build variants plonky2@threads<n>: the same binary with RAYON_NUM_THREADS set) besides the default pool; c16_compression (all index multisets of small trees) is part of this check.',
         remainder=['MerkleTree::new, fill_subtree, fill_digests_buf (MaybeUninit, split_at_mut, rayon join): outside the Verus subset',
                    'thread-schedule clause of the property: no thread model in the verifier',
                    'batch_merkle_tree.rs'],
@@ -128,7 +130,7 @@ PROPS = {
         level_note='Trusted: Verus+Z3; the sponge permutation is uninterpreted (that altering an absorbed element changes later challenges is the '
                    'random-oracle reading of the permutation, outside the family); FriReductionStrategy::serialize, to_fri_openings, Vec::drain/iter::repeat '
                    'adaptors assumed. Not covered: the PROVER transcript in prove_with_partition_witness (rayon/timing macros; agreement with the verifier '
-                   'is what the positive tests establish), RecursiveChallenger. STARK get_challenges: bounded harness only (c04_stark_transcript: 15+ message / parameter alterations, each must change every later challenge group and no earlier one).',
+                   'is what the positive tests establish), RecursiveChallenger. STARK get_challenges: bounded harness only (c04_stark_transcript: 25+ message / parameter alterations incl. the optional lookup / cross-table-lookup openings and 10 reduction strategies, each must change every later challenge group and no earlier one).',
         remainder=['prover-side transcript (plonk/prover.rs, fri/prover.rs)', 'RecursiveChallenger and in-circuit get_challenges', 'starky get_challenges (bounded harness only)'],
     ),
     'C05': dict(
@@ -144,7 +146,8 @@ PROPS = {
                    'check of EVERY round held (the batch per-round function itself is bounded-only). The algebra called by the skeleton is abstracted by uninterpreted functions.',
         level_note='Trusted: Verus+Z3; compute_evaluation, fri_combine_initial, PolynomialCoeffs::eval, flatten, reverse_bits, from_os_and_alpha as '
                    'uninterpreted functions; FriParams from common data (params_ok). FRI soundness over these checks is outside the family. '
-                   'Prover side not covered; batch_fri_verifier_query_round / batch_fri_verify_initial_proof (scan closures) bounded harness only.',
+                   'Prover side not covered; batch_fri_verifier_query_round / batch_fri_verify_initial_proof (scan closures) bounded harness only (7 batch plans incl. two-coefficient polynomials entering at the last layer); '
+                   'c05_fri_structured_openings: stand-alone opening proofs over constant / zero / linear / random polynomials under 6 opening plans x 4 parameter sets: true openings accepted, every false opening rejected.',
         remainder=['FRI soundness theorem (proximity gaps) over the checked conjunction', 'prover side: fri_committed_trees, fri_proof_of_work, prove_openings',
                    'batch FRI per-round function (batch_fri_verifier_query_round) and batch prover', 'reduction_arity_bits strategies'],
     ),
@@ -190,7 +193,7 @@ PROPS = {
                    'stand-in only.',
         level_note='Trusted: Verus+Z3; vstd::bytes little-endian specs for from_le_bytes/to_le_bytes; abstract Read/Write. Composite encoders (read_proof, '
                    'read_common_circuit_data, per-gate and per-generator pairs): bounded harness only (4 circuit families incl. 256-entry lookup tables '
-                   'and random access; restore, prove with the restored circuit, cross-verify).',
+                   'and random access; restore, prove with the restored circuit, cross-verify; a Keccak configuration (25-byte digests): proof, compressed proof, verifier-only and verifier circuit data; a circuit carrying a dummy-proof generator over an inner circuit with other common data).',
         remainder=['composite readers/writers (closures returning Result)', 'gate / generator serializer registries and per-gate pairs', 'restored circuits interchangeable (whole-system)'],
     ),
     'C18': dict(
@@ -272,7 +275,7 @@ PROPS = {
         level_note='Trusted: Verus+Z3; derived PartialEq on MerkleCap/HashOut is element-wise (T11); core::array::from_fn unrolled for N = 4 (R11e); slice range '
                    'indexing and HashOut::from_partial contracts (T4). conditionally_verify_proof, select_*, conditionally_verify_cyclic_proof, '
                    'dummy_circuit/dummy_proof/cyclic_base_proof: CircuitBuilder code, bounded harness only (2 inner circuit shapes incl. lookups, condition as a witness bit and as a build-time '
-                   'constant, both values, 8-11 validity scenarios with the native verifier as oracle; cyclic base proofs of 4 shapes verified against their dummy circuit; thorough tier: a 3-step '
+                   'constant, both values, 8-11 validity scenarios with the native verifier as oracle; cyclic base proofs of 4 shapes (sparse and dense caller maps) verified against their dummy circuit; conditionally_verify_proof_or_dummy with valid / invalid supplied proofs under both conditions; thorough tier: a 3-step '
                    'cyclic chain, 4 single-element alterations of the embedded verifier data, and a two-slot (tree) cyclic circuit with foreign verifier data in either slot).',
         remainder=['select_proof_with_pis / select_verifier_data / conditionally_verify_proof (bounded harness only)',
                    'conditionally_verify_cyclic_proof, add_verifier_data_public_inputs (bounded harness only, thorough tier)', 'dummy_circuit / dummy_proof (bounded harness only)'],
